@@ -14,7 +14,7 @@ RULE = (
     "programs = BIND shapes with rectangular sensor sets covering all four control x calibration combinations (quick 8, "
     "thorough 27 + nonlinear OPS) x configurations CSE in {on, off} x innovation threshold k in {disabled, 5.0, 0.5}; for "
     "each, ALL event sequences of length <= 3 over {predict(0.125), predict(-0.0625), predict(0), update(s, predicted + 0.25), "
-    "update(s, predicted + 3) for every sensor s} from 2 initial (state, covariance) pairs are run on the real Python "
+    "update(s, predicted + 3), update(s, predicted exactly: zero innovation) for every sensor s} from 2 initial (state, covariance) pairs are run on the real Python "
     "filter; every step's inputs (Python's previous outputs, printed %.17g) are replayed on the compiled generated C++ "
     "filter and state, covariance, stored innovation and accept/reject are compared by name. One evaluation = one step "
     "compared. distinct = (program, configuration, sequence); non-trivial = sequences with >= 1 update."
@@ -69,7 +69,9 @@ def eval_case(case):
         return {"n": 1, "fails": [{"key": f"compile-refused:{type(e).__name__}", "what": f"{tag}: {e!r}"[:300]}]}
     events = [("predict", 0.125), ("predict", -0.0625), ("predict", 0.0)]
     for key in sorted(ref.h):
-        events += [("update", key, 0.25), ("update", key, 3.0)]
+        # offset 0.0: the reading equals the predicted reading exactly (zero innovation: the estimate stays, the covariance
+        # still contracts - wave-11 seed C07k returned the prior from C++ in that case)
+        events += [("update", key, 0.25), ("update", key, 3.0), ("update", key, 0.0)]
     inits = []
     for pi, env in enumerate(space.some_points(st, 2, case["seed"])):
         P = [[(1.0 + 0.5 * i + pi) if i == j else (0.125 if pi == 0 else -0.0625 * (i + j)) for j in range(n_s)] for i in range(n_s)]
